@@ -20,7 +20,7 @@ def run(ctx):
               "math.Log2/math.Ceil on float64 are compared with the exact integer levels(n), not modelled")
     ctx.assume("leaf sums (first 8 bytes of the leaf hash) positive and pairwise distinct; measured for every generated set (stats: sets_violating_sum_hypothesis)")
     if ctx.thorough:
-        ctx.stream("verify-all", "c29", "Driver/C29.lean", n=40000, args=["-mode", "verify", "-allsizes", "-max", "1100"], timeout=3000, drv_timeout=3000)
+        ctx.stream("verify-all", "c29", "Driver/C29.lean", n=1, args=["-mode", "verify", "-allsizes", "-max", "1100"], timeout=3000, drv_timeout=6000)
         ctx.stream("verify", "c29", "Driver/C29.lean", n=6000, args=["-mode", "verify", "-max", "1100"], seed=ctx.seed + 101, timeout=3000, drv_timeout=3000)
         ctx.stream("levels", "c29", "Driver/C29.lean", n=20000, args=["-mode", "levels", "-lvupto", str(1 << 22)])
     else:
